@@ -999,9 +999,16 @@ def run(ctx):
         'caller-side in-place edits of returned arrays are outside the history alphabet (reads, setter '
         'assignments, calls); images are passed as copies so that C10 defects do not leak into this check']
     ctx.cov['partial_clauses'] = [
-        'IterativePSFPhotometry and the star finders are checked by the direct fresh-object oracle only '
-        '(their state machine is the PSFPhotometry one / has no state); StarFinder\'s in-place kernel '
-        'normalisation is covered by starfinder theorem under the idempotence hypothesis']
+        'starfinder_calls_fresh_partial: StarFinder normalises its kernel in place on every call; the theorem '
+        'assumes the normalisation is idempotent (k/max(k) has max exactly 1) -- that hypothesis is checked '
+        'bitwise on every StarFinder call of this run (support test), not proved about binary64 division',
+        'IterativePSFPhotometry, the star finders and LocalBackground values are tied to the implementation by the '
+        'direct fresh-object oracle only (iterative_calls_fresh / readonly_finder_calls_fresh are proved about the '
+        'model; the inner iteration schedule is an abstract function there)',
+        'PSFPhotometry calls that raise half-way (source off the image) are compared with a fresh object '
+        'directly; the model has no such branch',
+        'RadialProfile.gaussian_fit / gaussian_profile / gaussian_fwhm are deliberately NOT among the observables: '
+        'they are documented not to follow normalize()']
     cases, meta = [], []
     section_bkg(ctx, cases, meta)
     section_prof(ctx, cases, meta)
